@@ -23,6 +23,7 @@ type likeCase struct {
 	Order   string `json:"order"` // asc desc interleaved seq
 	Enum    bool   `json:"enum,omitempty"`
 	Chunk   int    `json:"chunk,omitempty"` // enum: which chunk of 255 cells
+	Rot     bool   `json:"rot,omitempty"`   // enum: the column with the rotated middle
 	// Seq: explicit cell sequence (core cells in all sequences of 3); overrides Order
 	Seq []string `json:"seq,omitempty"`
 	// Upper: direct comparison of the zero-alloc ToUpper with strings.ToUpper over Seq with one shared buffer
@@ -84,6 +85,8 @@ type c18Frames struct {
 	str  map[string]qframe.QFrame
 	cell map[string][]string
 	enum map[string][]qframe.QFrame
+	// enumRot: per chunk a column with the same values, middle rotated
+	enumRot map[string][]qframe.QFrame
 }
 
 var c18env *c18Frames
@@ -92,7 +95,7 @@ func c18Env() *c18Frames {
 	if c18env != nil {
 		return c18env
 	}
-	e := &c18Frames{str: map[string]qframe.QFrame{}, cell: map[string][]string{}, enum: map[string][]qframe.QFrame{}}
+	e := &c18Frames{str: map[string]qframe.QFrame{}, cell: map[string][]string{}, enum: map[string][]qframe.QFrame{}, enumRot: map[string][]qframe.QFrame{}}
 	for _, order := range []string{"asc", "desc", "interleaved"} {
 		cells := orderCells(c18Cells(), order)
 		e.cell[order] = cells
@@ -122,6 +125,15 @@ func c18Env() *c18Frames {
 				id2[i] = i
 			}
 			e.enum[order] = append(e.enum[order], qframe.New(map[string]interface{}{"s": p, "id": id2}, newqf.Enums(map[string][]string{"s": nil})))
+			// the same values with the middle rotated by one: same cardinality, same first and last value,
+			// other internal numbering (a result remembered for the first column must not be served for this one)
+			if len(p) > 4 {
+				rot := append([]*string{p[0], p[1]}, p[3:len(p)-1]...)
+				rot = append(rot, p[2], p[len(p)-1])
+				e.enumRot[order] = append(e.enumRot[order], qframe.New(map[string]interface{}{"s": rot, "id": id2}, newqf.Enums(map[string][]string{"s": nil})))
+			} else {
+				e.enumRot[order] = append(e.enumRot[order], e.enum[order][len(e.enum[order])-1])
+			}
 		}
 	}
 	c18env = e
@@ -159,6 +171,9 @@ func runLikeCase(c likeCase) *core.Failure {
 				return core.Failf("bad chunk")
 			}
 			qf = env.enum[c.Order][c.Chunk]
+			if c.Rot {
+				qf = env.enumRot[c.Order][c.Chunk]
+			}
 		} else {
 			qf = env.str[c.Order]
 		}
@@ -269,6 +284,8 @@ func c18Run(ctx *core.Ctx) {
 					for ch := range env.enum[order] {
 						if ctx.Mine() {
 							exec(likeCase{Pattern: p, Cmp: cmp, Order: order, Enum: true, Chunk: ch}, "enum/"+cmp)
+							// directly afterwards, in the same process, the sibling column
+							exec(likeCase{Pattern: p, Cmp: cmp, Order: order, Enum: true, Chunk: ch, Rot: true}, "enum-rotated/"+cmp)
 						}
 					}
 				}
@@ -319,7 +336,7 @@ func init() {
 		Setup: func() { c18Env() },
 		Level: "model_checking",
 		Rule: "case = (pattern, comparator, column kind, cell order). Cells: ALL strings of length <= 3 over a 13-code-point alphabet (a, A, b, é, É, ß, dotless i U+0131 (upper one byte shorter), long s U+017F, U+0250 (upper one byte longer), C1 control U+0080, Kelvin sign U+212A, '.', '(') plus a^k+c and c+b^k for k = 4..14 (lengths around the matcher's 10-byte buffer), and one null; " +
-			"patterns: ALL strings of length <= 3 over the alphabet plus '%' (incl. empty, %, %%, regex metacharacters, invalid regex) plus long patterns; comparators like and ilike; as string column (cells in ascending, descending and interleaved length order, because the case-insensitive matcher reuses one buffer across cells) and as enum column in chunks of 254 values; a 14-cell core in all sequences of 3 through ilike and through the zero-alloc ToUpper directly with 4 buffer sizes. " +
+			"patterns: ALL strings of length <= 3 over the alphabet plus '%' (incl. empty, %, %%, regex metacharacters, invalid regex) plus long patterns; comparators like and ilike; as string column (cells in ascending, descending and interleaved length order, because the case-insensitive matcher reuses one buffer across cells) and as enum column in chunks of 254 values, each followed in the same process by a sibling enum column with the same cardinality, first and last value but the middle values rotated; a 14-cell core in all sequences of 3 through ilike and through the zero-alloc ToUpper directly with 4 buffer sizes. " +
 			"Oracle: the statement's rules (literal match after trimming one leading/trailing %, strings.ToUpper for ilike, Go regexp anchored per missing % with (?i) for ilike when the pattern has metacharacters, compile error => Err, nulls never match). Every Filter call evaluates ~2700 cells; all cases non-trivial, distinct by content.",
 		Assumptions: []string{
 			"strings.ToUpper and Go's regexp are the reference for Unicode upper-casing and regular expressions",
